@@ -13,6 +13,8 @@ ENUM_RULES = [
     (r"static_cast<hex::Instr>\(", "(Instr)(", 0), (r"static_cast<hex::OprInstr>\(", "(OprInstr)(", 0),
     (r"static_cast<hex::Syscall>\(", "(Syscall)(", 0),
     (r"static_cast<(size_t|uint32_t|uint64_t|int32_t|int64_t|int|unsigned|long|unsigned long|char|unsigned char|uint8_t)>\(", r"(\1)(", 0),
+    (r"\bmemory\.size\(\)", "((size_t)MEMORY_SIZE_WORDS)", 0),   # std::array<uint32_t, MEMORY_SIZE_WORDS>::size()
+    (r"std::to_string\(([^()]*)\)", r"((void)(\1), 0)", 0),        # text of an error message: evaluated, not rendered
 ]
 
 
@@ -446,7 +448,7 @@ def lookupSymbol_fn(manifest, with_contract=True):
             "    __CPROVER_loop_invariant(i < debugInfo_size && lastPC >= debugInfo[i].second)\n"
             "    __CPROVER_decreases(debugInfo_size - i)\n  {")
     rules = [
-        (r"debugInfo\.size\(\)", "debugInfo_size", 2),
+        (r"debugInfo\.size\(\)", "debugInfo_size", 1),
         (r"return debugInfo\[i\]\.first\.c_str\(\);", "{ g_lookup_idx = i; return &debugInfo[i]; }", 2, 2),
         (r"return nullptr;", "return NULL;", 2, 2),
     ]
